@@ -63,6 +63,7 @@ fn main() {
         "C06" => mon::c06::run(&p),
         "C10" => mon::c10::run(&p),
         "C11" => mon::c11::run(&p),
+        "C12" => mon::c12::run(&p),
         "C15" => mon::c15::run(&p),
         _ => {
             eprintln!("unknown property {}", prop);
